@@ -745,29 +745,34 @@ func (e *Evaluator) evalCallExp(
 	if hasCustomFunc(e.ctx.CustomFunc, receiverType, funcName) {
 		nativeArgs := e.objectsToNativeType(args)
 
+		var res any
+
 		switch receiverType {
 		case object.STR_OBJ:
 			fun := e.ctx.CustomFunc.Str[funcName]
-			res := fun(receiverObj.String(), nativeArgs...)
-			return object.NativeToObject(res)
+			res = fun(receiverObj.String(), nativeArgs...)
 		case object.ARR_OBJ:
 			fun := e.ctx.CustomFunc.Arr[funcName]
 			nativeElems := e.objectsToNativeType(receiverObj.(*object.Array).Elements)
-			res := fun(nativeElems, nativeArgs...)
-			return object.NativeToObject(res)
+			res = fun(nativeElems, nativeArgs...)
 		case object.INT_OBJ:
 			fun := e.ctx.CustomFunc.Int[funcName]
-			res := fun(int(receiverObj.(*object.Int).Value), nativeArgs...)
-			return object.NativeToObject(res)
+			res = fun(int(receiverObj.(*object.Int).Value), nativeArgs...)
 		case object.FLOAT_OBJ:
 			fun := e.ctx.CustomFunc.Float[funcName]
-			res := fun(receiverObj.(*object.Float).Value, nativeArgs...)
-			return object.NativeToObject(res)
+			res = fun(receiverObj.(*object.Float).Value, nativeArgs...)
 		case object.BOOL_OBJ:
 			fun := e.ctx.CustomFunc.Bool[funcName]
-			res := fun(receiverObj.(*object.Bool).Value, nativeArgs...)
-			return object.NativeToObject(res)
+			res = fun(receiverObj.(*object.Bool).Value, nativeArgs...)
 		}
+
+		resObj := object.NativeToObject(res)
+
+		if resObj == nil {
+			return e.newError(node, fail.ErrUnsupportedType, res)
+		}
+
+		return resObj
 	}
 
 	return e.newError(node, fail.ErrNoFuncForThisType, node.Function.Value, receiverObj.Type())
